@@ -156,6 +156,9 @@ def judge(pipeline, faults, base, obs, second_alone=None):
         if kind in INJECTED and f.split("/")[-1] not in fired:
             out.append((sig("fault-not-delivered"), f"harness: injected fault {kind} for {f} never fired"))
             continue
+        if kind in CONTENT_FAULTS and f not in _failed(obs.report, K2):
+            # the following (detector-less) codemod selects every Python file: it cannot process this one either
+            out.append((sig("later-codemod-does-not-list-unprocessable-file"), f"{f} ({kind}) cannot be parsed but {K2} does not list it in failedFiles {_failed(obs.report, K2)}"))
         if selected and f not in _failed(obs.report, cm):
             out.append((sig("not-listed-as-failed"), f"{f} ({kind}) was selected by {cm} and could not be processed but is not in failedFiles {_failed(obs.report, cm)}"))
         if pipeline == "sonar":
